@@ -24,6 +24,11 @@ CS = 'io_loop::connection_state::'
 
 
 def run(ctx):
+    _run_main(ctx)
+    _shared_r4(ctx)
+
+
+def _run_main(ctx):
     m, arms, _ = D.read(ctx)
     with ctx.rule('R13.1', 'verbatim forwarding: Ack->Ack, Nack->Nack, tag and multiple from the frame; blocked reason; per-slot listener', floor=4) as r:
         for key in (('Method', 'n', 'basic', 'Ack'), ('Method', 'n', 'basic', 'Nack'), ('Method', '0', 'connection', 'Blocked'), ('Method', '0', 'connection', 'Unblocked')):
@@ -81,3 +86,9 @@ def run(ctx):
         ok = [x for x in rows if x.conds and x.conds[0][1] == 'Ok(_)']
         r.check('io-side:blocked-listener', len(ok) == 1 and any(e.startswith('ch0_slot.blocked_tx = Some(') and 'try_recv(ch0_slot.set_blocked_rx)' in e for e in ok[0].effects),
                 ctx.site('io_loop::IoLoop::handle_set_blocked_tx'), built=[x.row() for x in ok])
+
+
+def _shared_r4(ctx):
+    """Rules of other properties that are necessary conditions of this one too (found by seeding round 4)."""
+    with ctx.rule('R13.4', 'a returned message is collected and handed over whatever its size and whether or not a listener exists (shared with C03)', floor=3) as r:
+        A.include(ctx, r, 'c03', 'R03.5', pick=('Return', 'completion-sends'))
